@@ -163,7 +163,7 @@ func checkEigSym(c eigSymCase) *vk.Failure {
 }
 
 func TestEigenSym(t *testing.T) {
-	vk.Run(t, "eigsym", vk.Opts{Quick: 700, Thorough: 20000}, drawEigSym, checkEigSym)
+	vk.Run(t, "eigsym", vk.Opts{Quick: 2000, Thorough: 60000}, drawEigSym, checkEigSym)
 }
 
 // ---- Eigen -------------------------------------------------------------------
@@ -471,5 +471,5 @@ func checkEigen(c eigenCase) *vk.Failure {
 }
 
 func TestEigen(t *testing.T) {
-	vk.Run(t, "eigen", vk.Opts{Quick: 700, Thorough: 20000}, drawEigen, checkEigen)
+	vk.Run(t, "eigen", vk.Opts{Quick: 2000, Thorough: 60000}, drawEigen, checkEigen)
 }
